@@ -12,13 +12,25 @@ _S {...} S`).  For every set:
   enum class lists its members;
 * correspondence: the Lean model of stubgen.py (`Stubgen.generate`, fed with a snapshot of what the generator
   reads from the cstruct object) renders exactly the same text.
+
+Second family (harness/v8_c20.py): MULTI-NAME TYPEDEFS OF ANONYMOUS AGGREGATES - `typedef struct {...} A, B;`,
+`typedef union {...} U1, U2, U3;` with 2-5 names in every layout of the name list, bodies from the field generator above
+that may use earlier multi-name types by any of their names (nested), follower typedefs hanging pointer / array / plain
+declarators on the first, a middle or the last name, a structure using several of the names as field types, the sibling
+forms (`typedef struct _T {...} A, B;`, top-level `struct {...} c, d;`, single name), declarators inside the name list (the
+unmodified lexer rejects those), a repeated name, aliases added BY OBJECT through the API; each set under a random
+endianness, pointer width, compiled / interpreted, aligned / packed.  Oracle: the one above (every name the cstruct object
+provides is declared exactly once - class or alias - and what it is declared as resolves to the type the object provides
+under that name; nothing else is declared), an explicit exactly-once count for the names of each multi-name group, and an
+independent route that EXECUTES the stub and compares the bindings of the resulting class with the object's types (same
+stub object <=> same type).  The same cases go to the Lean model.
 """
 from __future__ import annotations
 
 import ast
 import keyword
 
-from .. import common, impl
+from .. import common, impl, v8_c20
 from ..common import A, Case, Result, mkrng, parse_sexp, run_driver, sx
 
 KEYWORDS = set(keyword.kwlist)
@@ -173,6 +185,12 @@ class Gen:
                 parts.append(f"{kw} {nm} {{ {body} }};\n")
                 self.types.append(nm)
         return "".join(parts)
+
+
+class Gen8(v8_c20.MultiNameMixin, Gen):
+    """definition sets around multi-name typedefs of anonymous aggregates (harness/v8_c20.py)"""
+
+    KW = KW_POOL
 
 
 # --------------------------------------------------------------------------------------------- snapshot of what stubgen reads
@@ -422,7 +440,13 @@ def run(env) -> Result:
                 "user types, pointer/array typedefs, typedef struct tag {...} name, structures/unions with nested named, anonymous and array-of "
                 "members, bit-fields, multi-dimensional arrays, pointers, self references, zero-field structures) loaded into a fresh cstruct; per "
                 "set: ast.parse + declared-name + field-hint-resolution oracle on the real stub, and exact text equality with the Lean model. "
-                "distinct = definition text; non-trivial = >= 2 user typedefs or constants")
+                "distinct = definition text; non-trivial = >= 2 user typedefs or constants. "
+                "Second family: sets of 1-4 multi-name typedefs of anonymous structs/unions (2-5 names, all name-list layouts, nested use of "
+                "earlier multi-name types, pointer/array/plain follower typedefs on any of the names, a structure using the names, tagged / "
+                "top-level-variable / single-name sibling forms, declarators inside the name list, repeated names, aliases added by object) "
+                "optionally between ordinary definition sets, under random endianness / pointer width / compiled / aligned; same oracle plus "
+                "an exactly-once count per name group and an execution of the stub whose bindings are compared with the object's types; "
+                "distinct = (definitions, options); non-trivial = some type is registered under >= 2 names")
     m = impl.dc()
     from dissect.cstruct.tools import stubgen as sg  # imported from /repo by impl.dc()
 
@@ -503,6 +527,7 @@ def run(env) -> Result:
         lines.append(sx([A("stubgen")] + snapshot(m, cs)))
         metas.append((data, stub, sig))
     res.sample({"definitions": metas[25][0]["definitions"], "stub": metas[25][1]}) if len(metas) > 25 else None
+    multiname_family(env, res, m, sg, viol, lines, metas)
     answers = run_driver(lines) if env["driver_ok"] else [None] * len(lines)
     for (data, stub, sig), ans in zip(metas, answers):
         if ans is None:
@@ -518,6 +543,93 @@ def run(env) -> Result:
     return res
 
 
+def multiname_family(env, res, m, sg, viol, lines, metas):
+    """multi-name typedefs of anonymous aggregates (generator and the execution oracle: harness/v8_c20.py)"""
+    T = m.types
+    rnd = mkrng(env["seed"], "c20-multiname")
+    n = 260 if env["tier"] == "quick" else 5000
+    corpus = [
+        "typedef struct { uint8 a; } A, B;", "typedef union { uint8 a; uint16 b; } U1, U2, U3;", "typedef struct {} E1, E2;",
+        "typedef struct { uint8 a; } A, B; typedef struct { A x; B y[2]; B *p; } C, D; typedef D *PD; typedef C CC[2]; typedef B B2;",
+        "typedef struct { struct { uint8 x; } i; union { uint8 p; uint16 q; }; struct { uint8 y; } arr[2]; } A,\n B ,C;",
+        "typedef struct _T { uint8 a; } A, B;", "struct { uint8 a; } c, d;", "typedef struct { uint8 a; } A, A;",
+        "typedef struct { uint8 a; } A, B; struct S { A a; B b; B *pb; A arr[2]; };",
+    ]
+    sampled = False
+    for i in range(n + len(corpus)):
+        g = Gen8(rnd, allow_kw=(rnd.random() < 0.06))
+        g.mn_init()
+        text = corpus[i] if i < len(corpus) else g.mn_definition_set()
+        data = {"definitions": text, "options": v8_c20.pick_options(rnd) if i >= len(corpus) else {}}
+        try:
+            cs = v8_c20.build(m, data)
+        except Exception as e:  # noqa: BLE001 - what the parser takes is not this property's business
+            forms = {x["form"] for x in g.groups}
+            res.feat(("multi:declarator-in-list:rejected:" if "declarator-in-list" in forms else "multi:rejected:") + type(e).__name__)
+            continue
+        empty = m.cstruct()
+        user = [k for k in cs.typedefs if k not in empty.typedefs]
+        if user and rnd.random() < 0.25:
+            for j in range(rnd.randint(1, 2)):
+                tgt = rnd.choice(user)
+                try:
+                    cs.add_type(f"ob{j}_{i}", cs.typedefs[tgt])
+                    data.setdefault("aliases_by_object", []).append([f"ob{j}_{i}", tgt])
+                    res.feat("multi:alias-by-object")
+                except Exception as e:  # noqa: BLE001
+                    res.feat("multi:alias-by-object:rejected:" + type(e).__name__)
+        by_type: dict[int, list[str]] = {}
+        for k, v in cs.typedefs.items():
+            if k not in empty.typedefs and not isinstance(v, str):
+                by_type.setdefault(id(v), []).append(k)
+        res.count((text, sorted(data["options"].items(), key=str)), any(len(v) >= 2 for v in by_type.values()))
+        for x in g.groups:
+            res.feat(f"multi:{x['form']}:{x['kind']}")
+            res.feat(f"multi:names={len(x['names'])}")
+            for f in x.get("followers", []):
+                res.feat("multi:follower:" + f)
+            if x.get("user"):
+                res.feat("multi:used-as-field-types")
+        for k, v in data["options"].items():
+            res.feat(f"multi:opt:{k}={v}")
+        sig = None
+        if has_keyword_name(m, cs):
+            sig = "F38"
+            res.feat("keyword-name")
+        elif any((not isinstance(v, str)) and "*" in v.__name__.split("[")[0].rstrip("*") for v in cs.typedefs.values()):
+            sig = "F39"
+            res.feat("anonymous-struct-through-pointer-typedef")
+        try:
+            stub = sg.generate_cstruct_stub(cs)
+        except Exception as e:  # noqa: BLE001
+            viol(f"generate_cstruct_stub raises {type(e).__name__}: {e}", data, sig)
+            continue
+        try:
+            oracle(m, cs, stub)
+            # every name of a group that the object provides: declared exactly once (the oracle above already compares the multisets;
+            # this names the group)
+            tree = ast.parse(stub)
+            for x in g.groups:
+                have = [nm for nm in dict.fromkeys(x["names"]) if nm in cs.typedefs]
+                off = v8_c20.declared_once(tree, have)
+                if off:
+                    raise Bad(f"the names {off} of `typedef {x['kind']} {{...}} {', '.join(x['names'])}` are provided by the cstruct object "
+                              "but not declared exactly once in the stub")
+            v8_c20.exec_oracle(m, cs, stub, Bad, res.feat, empty)
+        except Bad as e:
+            viol(str(e), dict(data, stub=stub), sig)
+        except Exception as e:  # noqa: BLE001 - the oracle met an object of a shape it cannot read: the library changed under it
+            viol(f"the stub / the cstruct object cannot be read by the oracle ({type(e).__name__}: {e})", dict(data, stub=stub), sig)
+        if not sampled and i >= len(corpus) and sig is None:
+            sampled = True
+            res.sample({"definitions": text, "options": data["options"], "stub": stub})
+        try:
+            lines.append(sx([A("stubgen")] + snapshot(m, cs)))
+            metas.append((data, stub, sig))
+        except Exception as e:  # noqa: BLE001
+            viol(f"the cstruct object cannot be snapshotted for the model ({type(e).__name__}: {e})", dict(data, stub=stub), sig)
+
+
 REPLAY_EXACT = True  # the recorded definition set is re-evaluated directly
 
 
@@ -525,13 +637,25 @@ def replay(body) -> int:
     m = impl.dc()
     from dissect.cstruct.tools import stubgen as sg
 
-    text = body["case"]["definitions"]
-    cs = m.cstruct()
-    cs.load(text)
-    stub = sg.generate_cstruct_stub(cs)
+    data = body["case"]
+    print(data["definitions"])
+    for k in ("options", "aliases_by_name", "aliases_by_object"):
+        if data.get(k):
+            print(f"{k}: {data[k]}")
+    try:
+        cs = v8_c20.build(m, data)  # options, definitions, aliases added through the API
+    except Exception as e:  # noqa: BLE001
+        print(f"the recorded definitions no longer load ({type(e).__name__}: {e})")
+        return 0
+    try:
+        stub = sg.generate_cstruct_stub(cs)
+    except Exception as e:  # noqa: BLE001
+        print(f"property fails: generate_cstruct_stub raises {type(e).__name__}: {e}")
+        return 1
     print(stub)
     try:
         oracle(m, cs, stub)
+        v8_c20.exec_oracle(m, cs, stub, Bad)
     except Bad as e:
         print("property fails:", e)
         return 1
